@@ -32,7 +32,12 @@ RULE = ('type-directed random OAL programs (quick: 3000 programs, <= 25 generate
         'where the expected outcome is an error, not a value); elsewhere 15 % of the `%` sites take operands of either sign; programs on which the reference semantics reports an error or runs out of '
         'fuel are outside the domain and dropped (counted in the distribution; a run in which any program ran out of fuel is flagged); a case is non-trivial when the program '
         'executed a loop body or a where clause with mixed outcomes and changed the population or returned a value; '
-        'distinct = distinct (program text, population)')
+        'distinct = distinct (program text, population); every 10th case (i % 10 == 6) is a session: 2-5 programs run one '
+        'after the other on ONE metamodel under ONE label - the same program twice / a query, a change, the query again / '
+        'a program that fails half way (8 kinds of failure without an effect of their own) followed by the same program '
+        'without the failure and further programs; the reference runs the failing program without the failing statement, '
+        'the outcome of the failing run is not compared, the return values and the population after it are; a family holds '
+        'an instance set across creates / deletes inside the loop over it')
 EXHAUSTIVE = {'quick': False, 'thorough': False}
 ASSUMPTIONS = ['programs are type-correct, terminating and error-free (apart from division by zero, which is compared) under the reference semantics (membership decided by Spec)',
                'reals, events, index access, set operators and referential-attribute access are not generated',
